@@ -2,6 +2,10 @@
 
 package checkpoint
 
+import "github.com/mgtv-tech/redis-GunYu/pkg/digest"
+
+var _ = digest.SpecHashSlot // spec functions used by the contracts below
+
 // Contracts for the verification machinery in /verif (build tag "verif").
 
 //@ func CheckpointInfo.RunIdKey
@@ -96,3 +100,14 @@ package checkpoint
 //@   modifies heap, curDb, replayFailed, reqs, lastCmd, lastNArgs, lastA1, lastA2, lastA3, lastA4, lastReply, nDel, nPexpire
 //@   assert at call Do: never_the_newest: arg0 == "hdel" ==> !(exceptNewest && db#2 == newestDb)
 //@   assert at call Do: only_stale: arg0 == "hdel" ==> cpi#2.Mtime <= before
+
+// ---- co-located bookkeeping keys (C18): the tag generated for slot s hashes to s -------------
+//@ func initBisyncSlotTags
+//@   arith int
+//@   properties C18
+//@   opaque SpecHashSlot
+//@   requires tags_ok: forall s uint16 :: bisyncSlotTagsBySlot[s] != "" ==> digest.SpecHashSlot("{" + bisyncSlotTagsBySlot[s] + "}") == s
+//@   modifies heap
+//@   ensures tags_ok: forall s uint16 :: bisyncSlotTagsBySlot[s] != "" ==> digest.SpecHashSlot("{" + bisyncSlotTagsBySlot[s] + "}") == s
+//@   loop 1:
+//@     invariant tags_ok: forall s uint16 :: bisyncSlotTagsBySlot[s] != "" ==> digest.SpecHashSlot("{" + bisyncSlotTagsBySlot[s] + "}") == s
